@@ -53,8 +53,7 @@ func runSchedules(r *core.Run) {
 		os.Exit(2)
 	}
 	if !st.SyncImport || st.GoStmts < 1 || st.Selects < 2 {
-		fmt.Fprintf(os.Stderr, "INFRASTRUCTURE: instrumentation of common/safe_prime.go found too little (%+v)\n", st)
-		os.Exit(2)
+		r.Cap(fmt.Sprintf("instrumentation of common/safe_prime.go found little (%+v): the generator may no longer be concurrent in the way the harness expects", st))
 	}
 	r.Set("sched_instrumentation", fmt.Sprintf("%+v", st))
 	ovPath, _ := o.Write(dir)
